@@ -202,8 +202,13 @@ def check_case(case, res=None):
 def cases(draw):
     tree = dict(draw(specgen.trees(features=FEATURES)))
     tree.pop("_excluded", None)
-    return {"tree": tree, "hashseed": draw(st.integers(1, 100000)), "walk_seed": draw(st.integers(1, 1000)),
-            "walk_seed2": draw(st.integers(1, 1000))}
+    # configuration numbers: Hypothesis favours a few values for such side inputs, so they are spread with a
+    # digest of the drawn numbers and the tree (recorded in the case, so replay does not depend on this)
+    import hashlib
+    raw = [draw(st.integers(1, 100000)), draw(st.integers(1, 1000)), draw(st.integers(1, 1000))]
+    dig = hashlib.blake2b(json.dumps([raw, tree], sort_keys=True, default=str).encode(), digest_size=12).digest()
+    return {"tree": tree, "hashseed": 1 + int.from_bytes(dig[0:4], "big") % 100000,
+            "walk_seed": 1 + int.from_bytes(dig[4:8], "big") % 1000, "walk_seed2": 1 + int.from_bytes(dig[8:12], "big") % 1000}
 
 
 def run_task(task):
